@@ -126,7 +126,10 @@ func (c *c03) corrupt(k int, acceptorOnly *bool) (*consensusproto.RawRecordWithI
 		return cp
 	}
 	rewrap := func(r *consensusproto.RawRecord) *consensusproto.RawRecordWithId { return simlib.Wrap(r) }
-	switch s.Choose("corruption", 7) {
+	switch s.Choose("corruption", 8) {
+	case 7:
+		// the same bytes under another spelling of the same content id (multibase base32 upper case)
+		return &consensusproto.RawRecordWithId{Payload: orig.Payload, Id: strings.ToUpper(orig.Id)}, "bytes kept, id re-spelled in another multibase"
 	case 0:
 		return &consensusproto.RawRecordWithId{Payload: flip(orig.Payload), Id: orig.Id}, "byte flipped, id kept"
 	case 1:
@@ -182,7 +185,8 @@ func runC03(r *core.Run) {
 	w := c.world
 	defer w.cleanup()
 	// observers: identities owner, a member-to-be, the last account (often an outsider), the node
-	idents := []*simlib.Account{w.accs[0], w.accs[1], w.accs[n-1], w.node}
+	// any account (its role emerges from the run: owner, member, joiner, removed, outsider) or the node
+	idents := append(append([]*simlib.Account{}, w.accs...), w.node)
 	nobs := 3 + s.Choose("nobs", 4)
 	for i := 0; i < nobs; i++ {
 		id := idents[s.Choose("obs-ident", len(idents))]
@@ -203,6 +207,8 @@ func runC03(r *core.Run) {
 	r.SetCfg("observers", nobs)
 	c.recordRefs()
 	w.bootstrap(func(preState, int) { c.recordRefs() })
+	w.reencode = s.Flip("reencode", 0.5)
+	w.template(func(preState, int) { c.recordRefs() })
 	for _, o := range c.obs {
 		c.checkObserver(o, "initial")
 	}
